@@ -120,6 +120,27 @@ class Throws:
             return None
         return f
 
+    @staticmethod
+    def canon_fact(fact):
+        """one spelling for `the entry of map m under key k` and for member access through a dereferenced pointer:
+        m.at(k), m.find(k)->second, (*m.find(k)).second  ->  m[k];   (*p).f  ->  p->f.
+        (Only used to compare a callee's throw condition with the caller's guards: there the entry exists on both sides.)"""
+        def f(k):
+            if k[0] == "mcall" and len(k) == 4 and k[1].split("::")[-1] == "at" and k[1].startswith("std::"):
+                return ("op", "[]", k[2], k[3])
+            if k[0] == "field" and len(k) == 3 and isinstance(k[2], tuple):
+                b = k[2]
+                if b[0] in ("un", "op") and len(b) == 3 and b[1] in ("*", "->"):
+                    inner = b[2]
+                    if k[1].endswith("::second") and inner[0] == "mcall" and len(inner) == 4 and inner[1].split("::")[-1] == "find" and inner[1].startswith("std::"):
+                        return ("op", "[]", inner[2], inner[3])
+                    if b[1] == "*" or b[0] == "un":
+                        return ("field", k[1], inner)
+                if b[0] == "deref" and len(b) == 2:
+                    return ("field", k[1], b[1])
+            return None
+        return tuple(key_subst(x, f) if isinstance(x, tuple) else x for x in fact)
+
     def undischarged(self, caller, callnode, callee, caller_facts, depth=0, exclude=(), outer=()):
         """Throw sites of `callee` (transitively, library functions only) that the facts
         holding at the call do not exclude.  `caller_facts` are in the terms of the outermost
@@ -129,6 +150,7 @@ class Throws:
         if depth > 6:
             return out
         chain = (self.subst_for_call(caller, callnode, callee),) + tuple(outer)
+        caller_facts = {self.canon_fact(f) for f in caller_facts}
 
         def tr(fact):
             for sub in chain:
@@ -137,7 +159,7 @@ class Throws:
 
         for ts in self.direct(callee):
             for alt in ts.alts:
-                alt_s = [tr(f) for f in alt]
+                alt_s = [self.canon_fact(tr(f)) for f in alt]
                 if any(contradicts(caller_facts, g) for g in alt_s):
                     continue
                 out.append((ts, alt_s))
